@@ -434,9 +434,35 @@ class _ReachingDefs(DefaultVisitor):
             if d_ift != d_iff:
                 phi, ctx = self._add_phi(name, stmt, d_ift, d_iff, ctx)
                 phis[name] = phi
+        # (iii) when exactly one branch always returns, the other branch is
+        # the only way past the statement: its introductions stay defined
+        # (the syntax checker accepts their use, see `_Env.merge`)
+        ift_exits = self._has_exit(stmt.ift)
+        iff_exits = self._has_exit(stmt.iff)
+        if ift_exits != iff_exits:
+            live_out = ift_out if ift_exits else iff_out
+            ctx = ctx.copy()
+            for name, d in live_out.items():
+                if name not in ctx:
+                    ctx[name] = d
         # record the phi nodes and return the updated context
         self.phis[stmt] = phis
         return ctx
+
+    @classmethod
+    def _has_exit(cls, block: StmtBlock) -> bool:
+        """Can control leave the block at its end (rather than return)?"""
+        for stmt in block.stmts:
+            match stmt:
+                case ReturnStmt():
+                    return False
+                case IfStmt():
+                    if not (cls._has_exit(stmt.ift) or cls._has_exit(stmt.iff)):
+                        return False
+                case ContextStmt():
+                    if not cls._has_exit(stmt.body):
+                        return False
+        return True
 
     def _visit_while(self, stmt: WhileStmt, ctx: _DefCtx):
         # create (temporary) phi nodes for any mutated variable
